@@ -190,6 +190,9 @@ def clone_val(v):
 INT_W = {'u8': 8, 'i8': 8, 'u16': 16, 'i16': 16, 'u32': 32, 'i32': 32, 'u64': 64, 'i64': 64, 'usize': 64, 'isize': 64, 'u128': 128, 'i128': 128}
 
 _STMT = {}
+def _simp(e):
+    # keep arithmetic over symbolic values in normal form (sums of clock increments cancel), constants stay cheap
+    return z3.simplify(e) if z3.is_expr(e) and not z3.is_bv_value(e) else e
 _TERM = {}
 def parse_term(t):
     if t == 'return;': return ('return',)
@@ -235,7 +238,7 @@ class Exec:
         self.fns = fns; self.models = models
         self.structs = structs or {}; self.enums = dict(VARIANTS); self.enums.update(enums or {})
         self.resolver = resolver or {}
-        self.solver = z3.Solver()
+        self.solver = z3.Solver(); self.solver.set('timeout', 1500)
         self.decisions = []; self.dpos = 0; self.pending = []
         self.steps = 0
         self.log = []
@@ -248,6 +251,12 @@ class Exec:
         for c in conds: self.solver.add(c)
         r = self.solver.check(); self.nq += 1
         self.last_model = self.solver.model() if r == z3.sat else None
+        if r == z3.unknown:
+            # the incremental core gave up within its time slice: decide the same query with the one-shot bit-blasting solver
+            s2 = z3.SolverFor('QF_BV'); s2.set('timeout', 120000)
+            s2.add(*self.solver.assertions())
+            r = s2.check(); self.nq2 = getattr(self, 'nq2', 0) + 1
+            self.last_model = s2.model() if r == z3.sat else None
         self.solver.pop(); self.tsolve += time.time() - t
         if r == z3.unknown: raise Unknown('solver unknown')
         return r
